@@ -905,6 +905,29 @@ def _mask_to_indices(k):
     return k
 
 
+def store_cast(t: Tensor, v):
+    """the value an array of t's element type holds after `v` is stored into it: numpy converts on assignment (a float
+    stored into an integer array is TRUNCATED towards zero, anything stored into a boolean array becomes `v != 0`)"""
+    if t.dtype == "int":
+        if isinstance(v, bool):
+            return int(v)
+        if isinstance(v, int) or (isinstance(v, Sym) and v.kind == "int"):
+            return v
+        if isinstance(v, Fraction):
+            return int(v)              # int() truncates towards zero, as the C cast does
+        if isinstance(v, Sym) and v.kind == "bool":
+            return mk(z3.If(v.t, z3.IntVal(1), z3.IntVal(0)))
+        raise Unsupported("a symbolic real stored into an integer array (numpy truncates it)")
+    if t.dtype == "bool":
+        if isinstance(v, bool) or (isinstance(v, Sym) and v.kind == "bool"):
+            return v
+        if isinstance(v, (int, Fraction)):
+            return v != 0
+        if isinstance(v, Sym):
+            return mk(v.t != 0)
+    return v
+
+
 def tensor_setitem(I, t: Tensor, key, value):
     if isinstance(key, tuple):
         key = tuple(_mask_to_indices(k) for k in key)
@@ -926,7 +949,7 @@ def tensor_setitem(I, t: Tensor, key, value):
             raise PyExc("ValueError", ("could not broadcast input array",))
         for j in range(npts):
             idx = [_norm_index(lists[ax][j], t.shape[ax]) for ax in range(t.ndim)]
-            t.set(idx, tv.data[0] if tv.size == 1 else tv.data[j])
+            t.set(idx, store_cast(t, tv.data[0] if tv.size == 1 else tv.data[j]))
         return
     sel = []
     for ax, k in enumerate(key):
@@ -951,7 +974,7 @@ def tensor_setitem(I, t: Tensor, key, value):
     for combo in itertools.product(*[range(len(s)) for s, _ in sel]):
         src = [sel[ax][0][c] for ax, c in enumerate(combo)]
         oidx = tuple(c for (s, keep), c in zip(sel, combo) if keep)
-        t.set(src, broadcast_get(tv, out_shape, oidx))
+        t.set(src, store_cast(t, broadcast_get(tv, out_shape, oidx)))
 
 
 def getitem(I, o, k):
